@@ -43,3 +43,46 @@ def allowed_children(name):
             _flatten(r[1], s)
             _ALLOWED[name] = frozenset(s)
     return _ALLOWED[name]
+
+
+def listed_but_unknown():
+    """child name -> parent element names whose rule lists it although the name
+    itself is not a known element (the tables disagree); such a child passes the
+    parent's allowed-children test and only fails when visited itself."""
+    out = {}
+    for parent in MAP:
+        al = allowed_children(parent)
+        if al:
+            for c in al:
+                if c not in MAP:
+                    out.setdefault(c, []).append(parent)
+    return out
+
+
+LISTED_UNKNOWN = listed_but_unknown()
+
+
+TYPED_VALUES = {
+    "yearDateContent": ["2017", " 2017 ", "2017-05-01", "2017-05-01\n", "2020-02-30", " 2020-02-30 ", "17", "", "\t1999"],
+    "timeContent": ["12:00:00", " 12:00:00", "25:00", "12:00:00Z ", "noon"],
+    "floatContent": ["0.0", " 0.5 ", "abc", "1e3", "nan", "-1", None],
+    "floatRangeContent_EW": ["0.0", " 0.5 ", "-181", "180", "180.0001", "nan", "abc", None, "-180"],
+    "floatRangeContent_NS": ["0.0", " 45 ", "-91", "90", "nan", "abc", None],
+    "floatContent_Nonnegative": ["0", " 1.5 ", "-0.0", "-1", "inf", "x", None],
+    "intContent": ["1", " 2", "x", "1.5", "-3", None],
+    "uriContent": ["https://a.org/x", "ftp://h", "http://", "mailto:x", " https://a.org ", "https://\u00e9.org", "\ud800"],
+}
+
+
+def typed_values(name):
+    """Boundary-flavoured content for elements whose rule types the content."""
+    r = RULES.get(MAP.get(name))
+    if not r or not isinstance(r[2], dict):
+        return None
+    out = []
+    for cr in r[2].get("content_rules", ()):
+        out.extend(TYPED_VALUES.get(cr, ()))
+    enum = r[2].get("content_enum")
+    if enum:
+        out.extend(list(enum) + [" %s " % enum[0], enum[0].upper(), "nosuch"])
+    return out or None
